@@ -124,6 +124,7 @@ LABELS = {
     "pdUnlock": ("submit_pending_jobs", "with self._lock:"),
     "m128": ("_monitor_stale_jobs", "except Exception as error:"),
     "m132": ("_monitor_stale_jobs", "self._on_error(error)"),
+    "mExit": ("", "<thread-exit>"),     # target function returned, Thread.is_alive() still True
     "done": None, "none": None, "dead": None,
 }
 
@@ -190,7 +191,8 @@ class Rig:
             if len(offs) == 1:
                 split = {JA.submit_pending_jobs: offs}
                 self.split_label = f"<split@{offs[0]}>"
-        self.ctl = Controller(targets, role_of=lambda n: "M", blockers=[lock_blocker("_lock")], split=split)
+        self.ctl = Controller(targets, role_of=lambda n: "M", blockers=[lock_blocker("_lock")], split=split,
+                              exit_roles={"M"})
         self.sched = []         # concrete schedule executed so far: "S", "M", ("T", n)
         self.trace = []         # per step: (thread, (func, text) executed, state string, S next, M next)
         self.switches = 0
@@ -396,7 +398,7 @@ def oracle(ctx, case, rig, drained):
 
 # ------------------------------------------------------------------ schedules
 def directed(rig, script):
-    """script items: ('S'|'M', 'until', <line prefix>) | ('S'|'M', 'n', k) | ('S'|'M', 'run') | ('T', n)"""
+    """script items: ('S'|'M', 'until', <line prefix>) | ('S'|'M', 'untilmax', <line prefix>, max steps) | ('S'|'M', 'n', k) | ('S'|'M', 'run') | ('T', n)"""
     for item in script:
         if item[0] == "T":
             rig.do(("T", item[1]))
@@ -408,6 +410,13 @@ def directed(rig, script):
                     break
         elif how == "run":
             for _ in range(3000):
+                if not rig.do(who):
+                    break
+        elif how == "untilmax":
+            for _ in range(item[3]):
+                lab = rig.next_label(who)
+                if lab is None or lab[1].startswith(item[2]):
+                    break
                 if not rig.do(who):
                     break
         elif how == "until":
@@ -458,6 +467,14 @@ def overflow_scripts():
             [("S", "n", 1), ("S", "until", "if job.task.script"),      # one whole add_job of the same description
              ("M", "until", "self.num_pending -="), ("S", "run")]
         out.append(dict(name=name, params=params, jobs=jobs, script=script))
+    # thread life cycle: whenever the monitor function returns (it never does on its own in the code as repaired), an
+    # add_job + start() between that return and the end of the thread must not strand the job
+    one = [("S", "n", 1), ("S", "until", "if job.task.script")]
+    for name, params, jobs in [("add-at-thread-exit", (2, 3, 0), [(0, 0, False), (1, 0, False)]),
+                               ("add-at-thread-exit-singles", (3, 3, -1), [(0, 0, False), (1, 1, False), (2, 0, False)])]:
+        out.append(dict(name=name, params=params, jobs=jobs,
+                        script=[("S", "until", "if job.task.script")] + one * (len(jobs) - 1) + [("T", 100)] +
+                        [("M", "untilmax", "<thread-exit>", 160), ("S", "run"), ("M", "n", 1)]))
     return out
 
 
@@ -485,6 +502,8 @@ HANDOFF = ("if len(jobs) > self.max_array_size", "remainder = jobs", "jobs = job
 def in_handoff(rig):
     """the monitor has popped a group and not yet put back / counted it: the lock is free, add_job can run"""
     lab = rig.next_label("M")
+    if lab is not None and lab[1] == "<thread-exit>":
+        return True             # the monitor function has returned, the thread is still alive: start() will not restart it
     if lab is None or lab[0] != "submit_pending_jobs":
         return False
     if lab[1].startswith(HANDOFF):
